@@ -15,6 +15,11 @@ pub fn field_types(tier: &str, with_aux: bool) -> Vec<(MTy, bool)> {
     v
 }
 
+/// Field types that are used as `#[base]` fields (auxiliary space only).
+pub fn base_field_types() -> Vec<MTy> {
+    vec![MTy::user("Inner4"), MTy::user("InnerV")]
+}
+
 fn field_types_named(tier: &str, with_aux: bool) -> Vec<MTy> {
     let mut v = vec![
         MTy::b("u8"),
@@ -32,6 +37,7 @@ fn field_types_named(tier: &str, with_aux: bool) -> Vec<MTy> {
             MTy::user("Inner16"),
             MTy::user("Ext12"),
             MTy::user("En16"),
+            MTy::user("Empty8"),
             MTy::user("T").mptr(),
         ]);
     }
@@ -97,8 +103,17 @@ pub fn aux_items() -> Vec<Item> {
         VariantS { name: "A".into(), value: None, default: false, doc: vec![] },
         VariantS { name: "B".into(), value: Some(7), default: false, doc: vec![] },
     ];
+    // a type with a vftable of its own: as a first #[base] it supplies the vftable pointer
+    let mut innerv = TypeS::new("InnerV");
+    innerv.vft = Some(VftS { size: None, funcs: vec![FuncS::new("v")] });
+    innerv.fields = vec![FieldS::new("a", MTy::b("u8").cptr())];
+    // an empty but over-aligned type: occupies no bytes, still constrains where it may sit
+    let mut empty8 = TypeS::new("Empty8");
+    empty8.align = Some(8);
     vec![
         Item::ExternType { name: "Ext12".into(), size: 12, align: 4 },
+        Item::Type(empty8),
+        Item::Type(innerv),
         Item::Type(inner4),
         Item::Type(inner16),
         Item::Enum(en),
@@ -111,6 +126,8 @@ pub fn aux_env() -> Env {
         .with("Inner16", (16, 8), (16, 8))
         .with("Ext12", (12, 4), (12, 4))
         .with("En16", (2, 2), (2, 2))
+        .with("InnerV", (8, 4), (16, 8))
+        .with("Empty8", (0, 8), (0, 8))
 }
 
 /// Rust definition for the extern type supplied by the harness when compiling.
@@ -119,22 +136,36 @@ pub fn aux_extern_rust() -> &'static str {
     "#[repr(C)] #[derive(Clone, Copy, Default)] pub struct Ext12(pub [u32; 3]);\n"
 }
 
+/// One homogeneous block of the layout space: all field lists of length `k` over an alphabet,
+/// times an attribute product.
+#[derive(Clone, Debug)]
+struct Block {
+    k: usize,
+    /// (type, named, is #[base])
+    fields: Vec<(MTy, bool, bool)>,
+    addrs: Vec<Option<i128>>,
+    size_sel: Vec<usize>,
+    aligns: Vec<Option<i128>>,
+}
+
+impl Block {
+    fn lists(&self) -> usize {
+        (self.fields.len() * self.addrs.len()).pow(self.k as u32)
+    }
+    fn attr_radices(&self) -> Vec<usize> {
+        // size choice, align choice, packed, vftable
+        vec![self.size_sel.len(), self.aligns.len(), 2, 2]
+    }
+    fn len(&self) -> usize {
+        self.lists() * util::product(&self.attr_radices())
+    }
+}
+
 #[derive(Clone, Debug)]
 pub struct LayoutSpace {
     pub tier: String,
     pub with_aux: bool,
-    types: Vec<(MTy, bool)>,
-    addrs: Vec<Option<i128>>,
-    sub_types: Vec<(MTy, bool)>,
-    sub_addrs: Vec<Option<i128>>,
-    aligns: Vec<Option<i128>>,
-    /// number of field lists with k fields from the full alphabet, for k = 0..=kmax
-    full_counts: Vec<usize>,
-    kmax_full: usize,
-    k_sub: usize,
-    sub_count: usize,
-    attr_radices: Vec<usize>,
-    size_sel: Vec<usize>,
+    blocks: Vec<Block>,
     pub env: Env,
 }
 
@@ -146,105 +177,102 @@ pub struct LayoutCase {
 }
 
 impl LayoutSpace {
-    /// `reduced_attrs`: the attribute dimension is cut to 3 sizes x 4 aligns (used by the
-    /// quick tier of the checks that compile every accepted case).
+    /// `reduced`: in the quick tier the attribute dimension is cut to 3 sizes x 4 aligns (used by
+    /// the checks that compile every accepted case).
     pub fn new_reduced(tier: &str, with_aux: bool) -> LayoutSpace {
-        let mut s = LayoutSpace::new(tier, with_aux);
-        if tier != "thorough" {
-            s.aligns = vec![None, Some(4), Some(8), Some(16)];
-            s.size_sel = vec![0, 1, 4];
-            s.attr_radices = vec![s.size_sel.len(), s.aligns.len(), 2, 2];
-        }
-        s
+        LayoutSpace::build(tier, with_aux, true)
     }
     pub fn new(tier: &str, with_aux: bool) -> LayoutSpace {
-        let types = field_types(tier, with_aux);
-        let addrs = addresses(tier);
-        let per_field = types.len() * addrs.len();
-        let kmax_full = if tier == "thorough" { 3 } else { 2 };
-        let k_sub = kmax_full + 1;
-        let full_counts: Vec<usize> = (0..=kmax_full).map(|k| per_field.pow(k as u32)).collect();
-        let sub_types = sub_field_types();
-        let sub_addrs = sub_addresses();
-        let sub_count = (sub_types.len() * sub_addrs.len()).pow(k_sub as u32);
-        let aligns = align_choices(tier);
-        // size choice, align choice, packed, vftable
-        let attr_radices = vec![N_SIZE_CHOICES, aligns.len(), 2, 2];
-        LayoutSpace {
-            tier: tier.to_string(),
-            with_aux,
-            types,
-            addrs,
-            sub_types,
-            sub_addrs,
-            aligns,
-            full_counts,
-            kmax_full,
-            k_sub,
-            sub_count,
-            attr_radices,
-            size_sel: (0..N_SIZE_CHOICES).collect(),
-            env: if with_aux { aux_env() } else { Env::default() },
+        LayoutSpace::build(tier, with_aux, false)
+    }
+    fn build(tier: &str, with_aux: bool, reduced: bool) -> LayoutSpace {
+        let alphabet = |t: &str| -> Vec<(MTy, bool, bool)> {
+            let mut v: Vec<(MTy, bool, bool)> = field_types(t, with_aux).into_iter().map(|(ty, named)| (ty, named, false)).collect();
+            if with_aux {
+                v.extend(base_field_types().into_iter().map(|ty| (ty, true, true)));
+            }
+            v
+        };
+        let sub: Vec<(MTy, bool, bool)> = sub_field_types().into_iter().map(|(ty, n)| (ty, n, false)).collect();
+        let all_sizes: Vec<usize> = (0..N_SIZE_CHOICES).collect();
+        let red_sizes = vec![0, 1, 4];
+        let red_aligns = vec![None, Some(4), Some(8), Some(16)];
+        let mut blocks = vec![];
+        if tier == "thorough" {
+            // k <= 2 over the thorough alphabet with every attribute combination
+            for k in 0..=2 {
+                blocks.push(Block { k, fields: alphabet("thorough"), addrs: addresses("thorough"), size_sel: all_sizes.clone(), aligns: align_choices("thorough") });
+            }
+            // k = 3 over the quick alphabet with the reduced attribute product
+            blocks.push(Block { k: 3, fields: alphabet("quick"), addrs: addresses("quick"), size_sel: red_sizes.clone(), aligns: red_aligns.clone() });
+            // k = 4 over the sub-alphabet
+            blocks.push(Block { k: 4, fields: sub.clone(), addrs: sub_addresses(), size_sel: all_sizes.clone(), aligns: align_choices("quick") });
+        } else {
+            let (sizes, aligns) = if reduced { (red_sizes, red_aligns) } else { (all_sizes, align_choices("quick")) };
+            for k in 0..=2 {
+                blocks.push(Block { k, fields: alphabet("quick"), addrs: addresses("quick"), size_sel: sizes.clone(), aligns: aligns.clone() });
+            }
+            blocks.push(Block { k: 3, fields: sub.clone(), addrs: sub_addresses(), size_sel: sizes.clone(), aligns: aligns.clone() });
         }
-    }
-    pub fn field_lists(&self) -> usize {
-        self.full_counts.iter().sum::<usize>() + self.sub_count
-    }
-    pub fn attr_combos(&self) -> usize {
-        util::product(&self.attr_radices)
+        // every built-in scalar (the quick alphabet only has a few): alone at each of a set of
+        // addresses, and every pair of them placed implicitly
+        let builtins: Vec<(MTy, bool, bool)> = BUILTINS.iter().map(|(n, _, _)| (MTy::B(n), true, false)).chain(std::iter::once((MTy::b("u8").mptr(), true, false))).collect();
+        let sweep_addrs = vec![None, Some(0), Some(1), Some(2), Some(4), Some(8), Some(16), Some(24)];
+        let (sizes, aligns) = if reduced && tier != "thorough" { (vec![0, 1, 4], vec![None, Some(4), Some(8), Some(16)]) } else { ((0..N_SIZE_CHOICES).collect(), align_choices("quick")) };
+        blocks.push(Block { k: 1, fields: builtins.clone(), addrs: sweep_addrs, size_sel: sizes.clone(), aligns: aligns.clone() });
+        blocks.push(Block { k: 2, fields: builtins, addrs: vec![None], size_sel: sizes, aligns });
+        LayoutSpace { tier: tier.to_string(), with_aux, blocks, env: if with_aux { aux_env() } else { Env::default() } }
     }
     pub fn len(&self) -> usize {
-        self.field_lists() * self.attr_combos()
+        self.blocks.iter().map(|b| b.len()).sum()
     }
-    fn fields(&self, mut fl: usize) -> Vec<FieldS> {
-        let per_field = self.types.len() * self.addrs.len();
-        for k in 0..=self.kmax_full {
-            if fl < self.full_counts[k] {
-                let mut out = vec![];
-                for i in 0..k {
-                    let d = fl % per_field;
-                    fl /= per_field;
-                    let (ty, named) = self.types[d % self.types.len()].clone();
-                    let mut f = FieldS::new(&format!("f{i}"), ty);
-                    if !named {
-                        f.name = None;
-                        f.public = false;
-                    }
-                    f.addr = self.addrs[d / self.types.len()];
-                    out.push(f);
-                }
-                return out;
-            }
-            fl -= self.full_counts[k];
-        }
-        let per_sub = self.sub_types.len() * self.sub_addrs.len();
-        let mut out = vec![];
-        for i in 0..self.k_sub {
-            let d = fl % per_sub;
-            fl /= per_sub;
-            let mut f = FieldS::new(&format!("f{i}"), self.sub_types[d % self.sub_types.len()].0.clone());
-            f.addr = self.sub_addrs[d / self.sub_types.len()];
-            out.push(f);
-        }
-        out
+    pub fn describe(&self) -> String {
+        self.blocks
+            .iter()
+            .map(|b| format!("k={}: ({} field forms x {} addresses)^{} x {} sizes x {} aligns x packed x vftable = {}", b.k, b.fields.len(), b.addrs.len(), b.k, b.size_sel.len(), b.aligns.len(), b.len()))
+            .collect::<Vec<_>>()
+            .join("; ")
     }
     pub fn get(&self, index: usize, ps: u64) -> LayoutCase {
-        let ac = self.attr_combos();
-        let fl = index / ac;
-        let d = util::decode(index % ac, &self.attr_radices);
+        let mut rest = index;
+        let mut block = &self.blocks[0];
+        for b in &self.blocks {
+            if rest < b.len() {
+                block = b;
+                break;
+            }
+            rest -= b.len();
+        }
+        let radices = block.attr_radices();
+        let ac = util::product(&radices);
+        let mut fl = rest / ac;
+        let d = util::decode(rest % ac, &radices);
         let mut t = TypeS::new("T");
-        t.fields = self.fields(fl);
+        let per_field = block.fields.len() * block.addrs.len();
+        for i in 0..block.k {
+            let x = fl % per_field;
+            fl /= per_field;
+            let (ty, named, base) = block.fields[x % block.fields.len()].clone();
+            let mut f = FieldS::new(&format!("f{i}"), ty);
+            f.base = base;
+            if !named {
+                f.name = None;
+                f.public = false;
+            }
+            f.addr = block.addrs[x / block.fields.len()];
+            t.fields.push(f);
+        }
         t.packed = d[2] == 1;
         if d[3] == 1 {
             let mut f = FuncS::new("v0");
             f.recv = Recv::Const;
             t.vft = Some(VftS { size: None, funcs: vec![f] });
         }
-        t.align = self.aligns[d[1]];
+        t.align = block.aligns[d[1]];
         // natural end computed by the model, ignoring rejections
         let lay = layout(&t, ps, &self.env, t.vft.is_some());
         let nat = lay.offsets.last().map(|o| o + lay.sizes.last().unwrap()).unwrap_or(if t.vft.is_some() { ps } else { 0 });
-        t.size = size_choices(nat)[self.size_sel[d[0]]];
+        t.size = size_choices(nat)[block.size_sel[d[0]]];
         let k = t.fields.len();
         LayoutCase { index, ty: t, k }
     }
